@@ -18,6 +18,7 @@ import (
 	"fmt"
 	"go/ast"
 	"go/token"
+	"strconv"
 	"strings"
 
 	"go.uber.org/nilaway/config"
@@ -107,7 +108,9 @@ func groupConflicts(allConflicts []conflict, pass *analysishelper.EnhancedPass) 
 							functionStart := pass.Fset.Position(fd.Pos()).Offset
 							functionEnd := pass.Fset.Position(fd.End()).Offset
 							if c.position.Offset >= functionStart && c.position.Offset <= functionEnd {
-								key = fd.Name.Name + ":" + key
+								// The name alone does not identify the function: methods of different
+								// receiver types and multiple `init` functions share theirs.
+								key = fd.Name.Name + "@" + strconv.Itoa(functionStart) + ":" + key
 								break
 							}
 						}
